@@ -264,6 +264,9 @@ func GenSpec(r *Rng, p SigProfile, now time.Time) *SigSpec {
 			s.AltFrame = r.Chance(1, 5)
 		}
 	}
+	if hasBody && len(s.Body) > 0 && !IsStreaming(s.Mode) && r.Chance(1, 8) {
+		s.TEChunk = true
+	}
 	// the query-string carrier combined with the other payload modes (one request in five)
 	if s.Mode != ModePresign && r.Chance(1, 5) {
 		s.Presign = true
